@@ -6,6 +6,7 @@ Model: `Acl/List.lean` (`AddRawRecord`, `AddRawRecords`, `build` over the state 
 -/
 import AnySyncModel.Acl.ListLemmas
 import AnySyncModel.Acl.Chain
+import AnySyncModel.Acl.Requests
 import AnySyncModel.Generated.AclFacts
 
 namespace AnySync.Acl
@@ -219,6 +220,33 @@ theorem catch_up_skips_known (cfg : Cfg) (lc : LCfg) (m : Mode) (known rest : Li
     simp only [List.cons_append]
     rw [addRaws, hr]
     exact ih l (fun x hx => h x (List.mem_cons_of_mem _ hx))
+
+/-! ## no dependence on Go map iteration order -/
+
+/-- requestRecords and pendingRequests stay in bijection across every accepted record (the record
+id being fresh, as a hash is), from the root on -/
+theorem requests_pending_bijection (cfg : Cfg) (hone : cfg.oneRotationPerRecord = true)
+    (s s' : State) (rec : Nat) (r : Record)
+    (hi : ReqInv s) (hs : AMap.Sorted s.requests) (hk : s.keys.Nodup)
+    (hfresh : s.requests.find? rec = none)
+    (happ : applyRecord cfg true s rec r = .ok s') :
+    ReqInv s' ∧ AMap.Sorted s'.requests ∧ s'.keys.Nodup :=
+  reqInv_record cfg hone s s' rec r hi hs hk hfresh happ
+
+/-- … and, with fix F-acl-double-rotation, `readKeyChanges` never lists a record twice (the keys
+map is indexed by record id, so a duplicate would mean an overwritten key set) -/
+theorem requests_pending_bijection_root (owner : Nat) (opts : Option Nat) :
+    ReqInv (applyRoot owner opts) ∧ AMap.Sorted (applyRoot owner opts).requests ∧
+    (applyRoot owner opts).keys.Nodup :=
+  reqInv_root owner opts
+
+/-- hence at most one request per account: the only place where the code picks "the first"
+element of a Go map by a predicate (`applyInviteJoinWithoutApprove` over `requestRecords`) has at
+most one candidate, so the resulting state does not depend on map iteration order -/
+theorem one_request_per_account (s : State) (h : ReqInv s) (r1 r2 : Nat) (q1 q2 : Request)
+    (h1 : s.requests.find? r1 = some q1) (h2 : s.requests.find? r2 = some q2)
+    (ha : q1.acc = q2.acc) : r1 = r2 :=
+  h.unique r1 r2 q1 q2 h1 h2 ha
 
 /-! ## validating and non-validating lists agree on accepted records -/
 
